@@ -295,6 +295,12 @@ func (m msgServer) Acknowledgement(
 		)
 	}
 
+	// A relay chain only passes the acknowledgement on (AcknowledgePacket has re-written it for the
+	// source chain); the application logic, including refunds, belongs to the source chain alone.
+	if msg.Packet.GetSourceChain() != m.k.ClientKeeper.GetChainName(ctx) {
+		return &packettypes.MsgAcknowledgementResponse{}, nil
+	}
+
 	// Perform application logic callback
 	_, err := cbs.OnAcknowledgementPacket(ctx, msg.Packet, msg.Acknowledgement)
 	if err != nil {
